@@ -19,7 +19,8 @@ RULE = ("(alloc) allocate_code(n), n in 1..8, through real clients against the r
         "nameplates from a grammar with spaces anywhere, empty and non-digit nameplates (letters, signs, tab, "
         "trailing newline) => KeyFormatError from set_code / choose_nameplate AND nothing is sent to the server "
         "because of the call; 1-6 ASCII digit nameplates accepted. (complete) typed prefixes of valid words + a "
-        "partial last word (+ junk prefixes for the 'extends' clause) and generated server nameplate lists, "
+        "partial last word (+ junk prefixes for the 'extends' clause) and generated server nameplate lists (a "
+        "history of 1-4 lists, each fetched by refresh_nameplates(); nameplates come and go, lists may be empty), "
         "through the real Input helper on a real wormhole and through CodeInputter: every completion starts with "
         "what was typed, names a listed nameplate, and accepting completions until no hyphen trails yields a code "
         "allocate_code could have produced. (onlyone) all ordered pairs of allocate/set/input => the second "
@@ -94,8 +95,11 @@ def complete_cases(draw):
     np_prefix_of = draw(st.integers(0, max(0, len(nps) - 1)))
     np_cut = draw(st.integers(0, 3))
     pick = draw(st.lists(st.integers(0, 300), min_size=4, max_size=4))
+    # the server's nameplate list as it was at 0-3 earlier refreshes (nameplates come and go, the list may
+    # become empty); `nps` is the list at the last refresh
+    earlier = draw(st.lists(st.lists(st.integers(1, 999).map(str), min_size=0, max_size=4, unique=True), max_size=3))
     return dict(part="complete", nps=nps, done=done, partial=partial, junk=junk, np_idx=np_prefix_of, np_cut=np_cut,
-                pick=pick, via=draw(st.sampled_from(["helper", "helper", "inputter"])))
+                pick=pick, via=draw(st.sampled_from(["helper", "helper", "inputter"])), earlier=earlier)
 
 
 @st.composite
@@ -254,9 +258,18 @@ def run_complete(c, res):
     nps = c["nps"]
     W = World(b"c19c" + json.dumps([nps, c["done"], c["partial"]]).encode())
     try:
-        for k, np_ in enumerate(nps):
-            rc = mbworld.RawClient(W, "appid", side="peer%d" % k)
-            rc.cmd("claim", nameplate=np_)
+        holders = {}
+
+        def set_server_list(lst):
+            for np_ in list(holders):
+                if np_ not in lst:
+                    holders.pop(np_).cmd("release", nameplate=np_)
+            for np_ in lst:
+                if np_ not in holders:
+                    holders[np_] = mbworld.RawClient(W, "appid", side="peer%d" % len(W.cmdlog))
+                    holders[np_].cmd("claim", nameplate=np_)
+        earlier = c.get("earlier") or []
+        set_server_list(earlier[0] if earlier else nps)
         w, dg = _mk(W, "delegate")
         h = w.input_code()
         W.settle(max_steps=300)
@@ -264,6 +277,16 @@ def run_complete(c, res):
         target_np = nps[c["np_idx"]] if nps else "5"
         np_prefix = target_np[:c["np_cut"]]
         if c["via"] == "helper":
+            for lst in earlier:
+                set_server_list(lst)
+                h.refresh_nameplates()
+                W.settle(max_steps=300)
+                got_ = set(h.get_nameplate_completions(""))
+                if got_ != {n_ + "-" for n_ in lst}:
+                    res.violate("complete", "after a refresh answered with the nameplates %r the helper offers %r "
+                                "(earlier lists %r)" % (sorted(lst), sorted(got_), earlier),
+                                input_class="nameplate-completions-differ")
+            set_server_list(nps)
             h.refresh_nameplates()
             W.settle(max_steps=300)
             comps = h.get_nameplate_completions(np_prefix)
@@ -337,7 +360,9 @@ def run_complete(c, res):
     finally:
         W.close()
     res.nontrivial = len(c["done"]) >= 1 and len(c["partial"]) >= 1
-    res.features = dict(part="complete", via=c["via"], done=len(c["done"]), partial=min(len(c["partial"]), 3),
+    res.notes["nameplate_list_shrank_to_empty"] += int(any(not l for l in (c.get("earlier") or [])[1:] + [c["nps"]])
+                                                       and any((c.get("earlier") or [])))
+    res.features = dict(part="complete", via=c["via"], refreshes=len(c.get("earlier") or []), done=len(c["done"]), partial=min(len(c["partial"]), 3),
                         junk=c["junk"], nps=min(len(nps), 3), final=final is not None)
 
 
